@@ -95,6 +95,10 @@ func (v *StructSchema) process(ctx *p.SchemaCtx) {
 		}
 		dataProv = newDp
 	}
+	if dataProv == nil {
+		// a factory may report an empty record (e.g. the JSON document {}) as a nil provider
+		dataProv = &p.EmptyDataProvider{}
+	}
 
 	// 3. Process / validate struct fields
 	structVal := reflect.ValueOf(ctx.ValPtr).Elem()
